@@ -947,7 +947,7 @@ macro_rules! impl_aminstarf {
                     .iter()
                     .enumerate()
                     .min_by(|(_, msg1), (_, msg2)| {
-                        msg1.value.abs().partial_cmp(&msg2.value.abs()).unwrap()
+                        msg1.value.abs().total_cmp(&msg2.value.abs())
                     })
                     .expect("var_messages is empty");
                 let mut sign: u32 = 0;
@@ -1019,7 +1019,7 @@ macro_rules! impl_aminstarf {
                     .iter()
                     .map(|msg| vars[msg.dest] - msg.value)
                     .enumerate()
-                    .min_by(|(_, msg1), (_, msg2)| msg1.abs().partial_cmp(&msg2.abs()).unwrap())
+                    .min_by(|(_, msg1), (_, msg2)| msg1.abs().total_cmp(&msg2.abs()))
                     .expect("var_messages is empty");
                 let mut sign: u32 = 0;
                 let mut delta = None;
